@@ -60,7 +60,8 @@ fn rounds_to_run(state: PeripheralState, fcb: crate::fdl::FrameCountBit, retry: 
         // the user may ask for diagnostics at any point where no request of this peripheral is being retried (F8 excluded)
         if let Some(from) = user_diag_pending { if k >= from && p.retry_count == 0 && p.is_live() { p.request_diagnostics(); user_diag_pending = None; } }
         let image_before: Vec<u8> = p.pi_i().to_vec();
-        let r = p.transmit_telegram(now, &dp, &fdl, crate::fdl::TelegramTx::new(&mut buf), crate::fdl::HighPrioOnly::No);
+        let hp = if k % 2 == 1 { crate::fdl::HighPrioOnly::Yes } else { crate::fdl::HighPrioOnly::No };
+        let r = p.transmit_telegram(now, &dp, &fdl, crate::fdl::TelegramTx::new(&mut buf), hp);
         if let Ok(res) = r {
             let n = res.bytes_sent();
             let (t, _) = crate::fdl::Telegram::deserialize(&buf[..n]).unwrap().unwrap();
